@@ -130,6 +130,10 @@ def accessors_of(cls, res, seen=None):
             setters[n] = ps[0]
         elif n in setters:
             del setters[n]
+    # set_x / get_x pairs (VXLAN): the value is shown under the setter's name as well, so that it pairs like the others
+    for n in list(setters):
+        if n.startswith('set_') and ('get_' + n[4:]) in getters and n not in getters:
+            getters[n] = getters['get_' + n[4:]] + ' @get_' + n[4:]
     return getters, setters
 
 
@@ -181,6 +185,7 @@ inline int exc_code(const std::exception& e) {
     if (dynamic_cast<const exception_base*>(&e)) return 90;
     return 99;
 }
+#define VACC_GET_AS(os, p, getter, label) do { os << " " #label "="; try { os << to_str_any((p).getter(), 0); } catch (const std::exception& e) { os << "!" << exc_code(e); } } while (0)
 #define VACC_GET(os, p, name) do { os << " " #name "="; try { os << to_str_any((p).name(), 0); } catch (const std::exception& e) { os << "!" << exc_code(e); } } while (0)
 
 // ---- value construction for setters ----
@@ -251,7 +256,10 @@ def generate(gen_dir=None):
         L.append('inline void describe_%s(const %s& p, std::ostream& os) {' % (c, c))
         L.append('    os << "%s";' % c)
         for name in sorted(g):
-            L.append('    VACC_GET(os, p, %s);' % name)
+            if ' @' in g[name]:
+                L.append('    VACC_GET_AS(os, p, %s, %s);' % (g[name].split(' @')[1], name))
+            else:
+                L.append('    VACC_GET(os, p, %s);' % name)
         L.append('}')
     L.append('inline void describe_layer(const PDU& pdu, std::ostream& os) {')
     for c in order:
